@@ -5,7 +5,8 @@ import AlgoVerif.Generated.Consts
 
 Graphs, the three traversals with their visitor callbacks, `Paths`, `Orders`, `ConnectedComponents`,
 `StronglyConnectedComponents` (Kosaraju), `DirectedCycle`, `Topological`.
-(Part 2, `Model/C14W.lean`: the indexed binary heap, eager Prim, Dijkstra.)
+(Part 2, `Model/C14W.lean`: the indexed binary heap, eager Prim, Dijkstra.  Part 3, `Model/C14S.lean`: graph objects
+with state, histories, accessors, `Reverse()`.)
 
 Conventions
 
@@ -24,8 +25,9 @@ Conventions
   object C18's refinement theorems are about; the correspondence runs cross the 1024 boundary.
 * `visited []bool`, `edgeTo []int`, `id []int` … are `Array`s; an index outside the array is
   `Outcome.panic`.  Recursion and `for !empty` loops take fuel; running out is `Outcome.diverge`.
-* The counters `v, e` and the in-degree table `ins` are not modelled (no operation of the property
-  reads them).
+* This file treats a graph as a value (`n` and `adj`).  The graph *objects* with their counters `e`, `ins`,
+  `AddEdge` histories, the accessors and `Reverse()` as a method returning a new object are part 3,
+  `Model/C14S.lean`.
 -/
 namespace AlgoVerif.C14
 
